@@ -457,6 +457,54 @@ func (p *prop) genCF(rng *core.Rand) string {
 	return fmt.Sprintf("cf %s %s", opt, strings.Join(ss, ";"))
 }
 
+// genQUIC: a reload history of an HTTP/3 listener within the protocol (see quicProtocolOK)
+func genQUIC(rng *core.Rand) string {
+	var toks []string
+	next, open := 1, []int{}
+	n := 6 + rng.Intn(10)
+	if rng.Chance(1, 2) {
+		// what a running process does: start the next config's server, stop the previous one
+		toks = append(toks, "o1")
+		next, open = 2, []int{1}
+		for len(toks) < n && next <= 9 {
+			if rng.Chance(2, 3) {
+				toks = append(toks, "p")
+			}
+			toks = append(toks, fmt.Sprintf("o%d", next))
+			if rng.Chance(2, 3) {
+				toks = append(toks, "p")
+			}
+			toks = append(toks, fmt.Sprintf("c%d", next-1))
+			next++
+		}
+		toks = append(toks, "p")
+		return "quic " + strings.Join(toks, ",")
+	}
+	for len(toks) < n {
+		switch x := rng.Intn(10); {
+		case x < 3 && len(open) < 2 && next <= 9:
+			toks = append(toks, fmt.Sprintf("o%d", next))
+			open = append(open, next)
+			next++
+		case x < 5 && len(open) > 0:
+			i := rng.Intn(len(open))
+			toks = append(toks, fmt.Sprintf("c%d", open[i]))
+			open = append(open[:i], open[i+1:]...)
+		case len(open) > 0 || rng.Chance(1, 6):
+			toks = append(toks, "p")
+		default:
+			if next <= 9 {
+				toks = append(toks, fmt.Sprintf("o%d", next))
+				open = append(open, next)
+				next++
+			} else {
+				toks = append(toks, "p")
+			}
+		}
+	}
+	return "quic " + strings.Join(toks, ",")
+}
+
 func (p *prop) genE2E(rng *core.Rand) string {
 	names := []string{"secret.test", "SECRET.test", "Secret.Test", "[secret.test]", "[secret.test", "secret.test]",
 		"[public.test]", "secret.test:443", "[SECRET.TEST]", "public.test]", " secret.test", "*.test"}
@@ -518,6 +566,7 @@ func (p *prop) genE2E(rng *core.Rand) string {
 }
 
 var malformed = []string{
+	"quic", "quic o0", "quic o1,o1", "quic c1", "quic o1,o2,o3", "quic o1,c1,o1", "quic o1,,p", "quic o1 p", "quic x", "quic o1,c2",
 	"cf2", "cf2 Z", "cf2 q r", "cf2 ~",
 	"cf", "cf n", "cf n 2", "cf n 2/", "cf n 6/q", "cf n 2/q;2/r", "cf z 2/q", "cf n 2/Z", "cf n 2/q;", "cf n 2/q 1", "cf n 2/~q",
 	"ca", "ca 1", "ca 00000000", "ca 0100000", "ca 2000000", "ca 1300000", "ca 1030000", "ca 1000006", "ca 100000x", "ca 1000000 1",
@@ -601,14 +650,18 @@ func (p *prop) Generate(rng *core.Rand, tier string, emit func(string)) {
 		return
 	}
 	nPol, nEnf, nBad, nE2E, nCF := 4500, 8000, 800, 600, 1200
+	nQUIC := 60
 	switch tier {
 	case "thorough":
 		nPol, nEnf, nBad, nE2E, nCF = 60000, 100000, 5000, 6000, 20000
+		nQUIC = 600
 	case "search":
 		nPol, nEnf, nBad, nE2E, nCF = 8000, 12000, 0, 600, 2000
+		nQUIC = 150
 	}
 	rp, re, rb, r2 := rng.Fork(), rng.Fork(), rng.Fork(), rng.Fork()
 	r3 := rng.Fork()
+	r4 := rng.Fork()
 	for _, m := range malformed {
 		emit(m)
 	}
@@ -644,6 +697,9 @@ func (p *prop) Generate(rng *core.Rand, tier string, emit func(string)) {
 		}
 		if i < nCF {
 			emit(p.genCF(r3))
+		}
+		if i < nQUIC {
+			emit(genQUIC(r4))
 		}
 		if i < nBad {
 			var base string
